@@ -26,6 +26,7 @@ def step (s : DState) (line : String) : DState × String :=
   | some ("k1", _) => (s, k1 toks)
   | some ("k2", _) => (s, k2 toks)
   | some ("k2srv", _) => (s, k2srv toks)
+  | some ("kprim", _) => (s, kprim toks)
   | some ("k3", _) => (s, k3 toks)
   | some ("kparse", _) => (s, kparse toks)
   | some ("kvstr", _) => (s, kvstr toks)
